@@ -914,7 +914,7 @@ BLOCKER_KEY = "blocker:nonblocking-diagnostics-dropped"
 
 
 def stage_B(ctx: vlib.Ctx, work: str) -> list[dict[str, Any]]:
-    nb = int(os.environ.get("C07_NBLOCK", ctx.n(3, 12)))
+    nb = int(os.environ.get("C07_NBLOCK", ctx.n(2, 12)))
     traces: list[dict[str, Any]] = []
     stats = {"programs": nb, "runs": 0, "status_2": 0, "full_output_equal": 0, "output_differs": 0}
 
@@ -1005,6 +1005,11 @@ def run(ctx: vlib.Ctx) -> None:
         "in the same directory (serialized trees embed absolute paths)",
     ]
     # T: which commit protocol do the per-module loops follow? (regenerates coq/gen/C07Protocol.v; fail-closed)
+    # T+P run under a lock of their own: two C07 checks against different VERIF_REPO trees share coq/gen/C07Protocol.v
+    import fcntl
+    os.makedirs(vlib.BUILD, exist_ok=True)
+    tp_lock = open(os.path.join(vlib.BUILD, ".c07-tp.lock"), "w")
+    fcntl.flock(tp_lock, fcntl.LOCK_EX)
     try:
         from extractors import t07
         flags = t07.extract()
@@ -1015,7 +1020,11 @@ def run(ctx: vlib.Ctx) -> None:
                     "Properties.lock_released_per_module_refuted applies (current_code_commits_per_module will not check)")
     except Exception as e:  # noqa
         ctx.broke("T", "t07 (commit protocol of the per-module loops)", repr(e))
-    ctx.prove("C07/Properties.v", ["C07"])
+    try:
+        ctx.prove("C07/Properties.v", ["C07"])
+    finally:
+        fcntl.flock(tp_lock, fcntl.LOCK_UN)
+        tp_lock.close()
     work = tempfile.mkdtemp(prefix="c07-")
     try:
         traces = stage_S(ctx, work)
